@@ -240,6 +240,11 @@ def run_case(cs):
                     if f.startswith("packinglist_") and f.endswith(".mhl"):
                         pm = xmlread.read_manifest(os.path.join(dp, f))
                         c3 = {**ctx, "zone_flatten": zone2, "now_flatten": now2}
+                        # the packing list is a manifest too: its name carries the UTC time of the flatten run
+                        cs.count("filename_checked")
+                        want_pl = _dt.datetime.fromtimestamp(now2, _dt.timezone.utc).strftime("%Y-%m-%d_%H%M%S") + "Z"
+                        if not f.endswith("_" + want_pl + ".mhl"):
+                            cs.violation("manifest-name-time-not-utc", {"kind": "name-time", "zone": zone2, "file": "packinglist"}, {**c3, "name": f, "want": want_pl})
                         _check_dt(cs, "creationdate", pm["creatorinfo"].get("creationdate"), now2, zone2, z2, c3)
                         for rec in pm["hashes"]:
                             for fmt, dg, a, hd in rec["entries"]:
